@@ -2,10 +2,16 @@
 
 package syncer
 
-import "github.com/PowerDNS/lightningstream/snapshot"
+import (
+	"github.com/PowerDNS/lightningstream/lmdbenv/header"
+	"github.com/PowerDNS/lightningstream/snapshot"
+)
 
 // verifYield is a no-op unless built with the "verif" tag (verification harness only).
 func verifYield(*Syncer, string) {}
 
 // verifLoadBegin is a no-op unless built with the "verif" tag.
 func verifLoadBegin(*Syncer, string, *snapshot.Update) {}
+
+// verifNoteTxn is a no-op unless built with the "verif" tag.
+func verifNoteTxn(*Syncer, header.TxnID) {}
